@@ -1,7 +1,7 @@
 ---------------------------- MODULE MC_Structured ----------------------------
 (* All Structured trees of a bounded shape family (C19): laws + emission.     *)
 EXTENDS Integers, Sequences, FiniteSets, TLC, TLCExt, Json, CSV, IOUtils, SequencesExt
-CONSTANTS Emit, Family
+CONSTANTS Emit, Family, Variant
 S == INSTANCE Structured
 
 L == S!Leaf(<<0>>)
@@ -13,7 +13,17 @@ V1 == V0 \cup { S!Tup(<<x>>) : x \in V0s } \cup { S!Tup(<<x, y>>) : x \in V0s, y
          \cup { S!St(<<k>>, <<x>>) : k \in {"root", "a"}, x \in V0 } \cup { S!St(<<"root", "b">>, <<x, y>>) : x \in V0s, y \in V0s }
 KeySeqs == { <<"root">>, <<"a">>, <<"root", "a">>, <<"a", "root">>, <<"a", "b">>, <<"root", "a", "b">> }
 Pool == IF Family = "small" THEN V0 ELSE V1
-Tops == UNION { { S!St(ks, vs) : vs \in [1..Len(ks) -> IF Len(ks) = 3 THEN V0s ELSE Pool] } : ks \in KeySeqs }
+\* trivial wrappers (a Structured holding nothing but a non-tuple root), one and two deep, around a Structured that has a root AND
+\* further structure (other keys before / after the root, a tuple root): the wrappers go, the structure below them - root, keys,
+\* tuple - stays, and no leaf is lost.  The wrapped object stands at the top, under a key, as the root beside a key and inside a
+\* tuple (where `_simplify` recurses into it).  In both families: the small pool has no Structured with a root and another key.
+Rich == { S!St(<<"root", "a">>, <<L, L>>), S!St(<<"a", "root">>, <<L, L>>), S!St(<<"root", "a", "b">>, <<L, L, L>>),
+          S!St(<<"root">>, <<S!Tup(<<L, L>>)>>), S!St(<<"root", "a">>, <<S!Tup(<<L>>), L>>), S!St(<<"root", "a">>, <<S!St(<<"root">>, <<L>>), L>>) }
+W(x) == S!St(<<"root">>, <<x>>)
+Wrapped == { W(x) : x \in Rich } \cup { W(W(x)) : x \in Rich }
+WrapTops == Wrapped \cup { S!St(<<"a">>, <<w>>) : w \in Wrapped } \cup { S!St(<<"root", "b">>, <<w, L>>) : w \in Wrapped }
+                    \cup { S!St(<<"a", "root">>, <<S!Tup(<<w, L>>), L>>) : w \in Wrapped }
+Tops == UNION { { S!St(ks, vs) : vs \in [1..Len(ks) -> IF Len(ks) = 3 THEN V0s ELSE Pool] } : ks \in KeySeqs } \cup WrapTops
 
 \* label the leaves 1..n in (documented) flatten order so that visiting order is observable
 RECURSIVE Label(_, _)
